@@ -37,8 +37,15 @@ func vC09splitAddr(m ma.Multiaddr) (ma.Multiaddr, peer.ID) { return m, "" }
 
 var vC09addrs = []ma.Multiaddr{ma.StringCast("/ip4/1.2.3.4/tcp/1"), ma.StringCast("/ip4/1.2.3.4/tcp/2"), ma.StringCast("/ip4/1.2.3.4/tcp/3")}
 
+var vC09extra []ma.Multiaddr // further addresses some harnesses use
+
 func vC09addrFromBytes(b []byte) (ma.Multiaddr, error) {
 	for _, a := range vC09addrs {
+		if bytes.Equal(a.Bytes(), b) {
+			return a, nil
+		}
+	}
+	for _, a := range vC09extra {
 		if bytes.Equal(a.Bytes(), b) {
 			return a, nil
 		}
